@@ -723,3 +723,62 @@ def zero_modulus_loop_rule(rep, u, names=("bn_mod_small",)):
             (rep.proved if ok else rep.violated)("R-DOMAIN", fn, "nonzero-modulus", desc, "" if ok else
                                                  "%s(5, 0): bn_cmp(bn, 0) >= 0 is always true and bn_sub(bn, 0) changes nothing - the call never returns" % fname)
     return n
+
+
+# in/out routines that compute in a wide temporary (confirmed by reading; the untabled form of the rule alarmed on routines
+# whose first parameter is input only - bn_calc_naf, bn_calc_jsf, bn_mod_legendre - or is also computed in place)
+COPY_BACK = {"bn_mod_div_mont": "u: bn + m does not fit the caller's object when both are full"}
+
+
+def copy_back_rule(rep, fn):
+    """a routine that copies its in/out operand into a temporary and computes there hands the result back: when the temporary
+    T was made from the first parameter P (bn_assign / bn_assign_init), T is written by later calls and P is written by none
+    of them, every success return is dominated by bn_assign(P, &T) (or an equivalent call that writes P from T)"""
+    if not fn.has_cfg or not fn.params or fn.name not in COPY_BACK:
+        return 0
+    P = fn.params[0]
+    temps = {}
+    for pos, root, c, ps in fn.calls({"bn_assign", "bn_assign_init"}):
+        d0, s0 = core.base_ref(c["args"][0]), core.base_ref(c["args"][1])
+        if d0 is not None and s0 is not None and s0.get("id") == P["id"] and d0.get("dk") == "local":
+            temps[d0["id"]] = (d0["n"], pos)
+    if not temps:
+        return 0
+    writes_p = []
+    writes_t = {t: [] for t in temps}
+    back = {t: [] for t in temps}
+    for pos, root, c, ps in fn.calls():
+        if not (c.get("fn") or "").startswith("bn_") or not c.get("args"):
+            continue
+        d0 = core.base_ref(c["args"][0])
+        if d0 is None:
+            continue
+        srcs = set()
+        for a in c["args"][1:]:
+            b = core.base_ref(a)
+            if b is not None:
+                srcs.add(b.get("id"))
+        if d0.get("id") == P["id"]:
+            hit = [t for t in temps if t in srcs]
+            if hit and c["fn"] in ("bn_assign", "bn_assign_init"):
+                for t in hit:
+                    back[t].append(pos)
+            elif c["fn"] not in ("bn_cmp", "bn_is_zero", "bn_is_one", "bn_is_even", "bn_is_odd", "bn_calc_bits", "bn_is_bit_set", "bn_cmp_digit"):
+                writes_p.append(pos)
+        elif d0.get("id") in temps and pos != temps[d0["id"]][1] and c["fn"] not in ("bn_cmp", "bn_is_zero", "bn_is_one", "bn_is_even", "bn_is_odd", "bn_calc_bits", "bn_is_bit_set", "bn_cmp_digit", "bn_init"):
+            writes_t[d0["id"]].append(pos)
+    n = 0
+    for t, (tn, tpos) in temps.items():
+        if not COPY_BACK[fn.name].startswith(tn + ":"):
+            continue
+        later_p = [w for w in writes_p if fn.pos_dominates(tpos, w)]
+        if not writes_t[t] or later_p:
+            continue                                       # the temporary is only read, or the operand itself is (also) computed in place
+        n += 1
+        rep.functions.add(fn.name)
+        succ = [sp for sp in r_mpt.success_returns(fn) if sp[0] in fn.reach_from([tpos[0]]) and any(sp[0] in fn.reach_from([w[0]]) or sp[0] == w[0] for w in writes_t[t])]
+        ok = bool(back[t]) and all(any(fn.pos_dominates(b_, sp) for b_ in back[t]) for sp in succ)
+        desc = "%s: the result computed in the temporary %s is copied back to %s before every success return" % (fn.name, tn, P["n"])
+        (rep.proved if ok else rep.violated)("R-COPYBACK", fn, "result-copied-back:%s" % tn, desc, "" if ok else
+                                             "success is returned with %s left as it came in: the whole computation happened in %s" % (P["n"], tn))
+    return n
